@@ -1,7 +1,9 @@
 from core import Case, hexs
+import core
 from gen_util import *
 PID = "C20"
 DRIVER = "drv_heap"
+MATRIX = core.MATRIX_ZEROING     # thorough tier: -O0/-O2/-O3, clang, explicit_bzero on/off, mlock on/off
 DRIVER_FLAGS = ("-w",)
 RULE = ("for every throwing API (hash x3 forms, get_hmac, HmacContext, pbkdf2 vector / locked, pepper, hkdf extract / expand / key-iv, HOTP, TOTP validation, time tokens x5, encoders x3, to_hex, "
         "secure_buffer copy-assign / assign / resize / construct / copy-construct / from string, secret_string set / rotate_nonce / rotate twice / reveal / move-in) and representative inputs of each shape: "
